@@ -116,6 +116,27 @@ def run(ctx):
                         pc, f, how, float(got[f]), float(alone)), dict(how=how, frame=f, precentered=pc, n_frames=n_fr, cut=cut, overlap=overlap))
                     break
 
+    # ---- a frame whose cell is a rounding error (up to 1e-3 degrees) away from rectangular, alone and next to a clearly skewed frame: the
+    # kernel is chosen for the whole trajectory, so the frame's own values must not depend on which one was chosen
+    for k in range(ctx.n(6, 30)):
+        rs = np.random.RandomState(ctx.seed * 977 + k)
+        L = rs.uniform(2.5, 4.0, 3)
+        xyz_ = (rs.rand(2, 20, 3) * L).astype(np.float32)
+        near = 90 + rs.uniform(-9e-4, 9e-4, 3) * np.array([1, k % 2, 1])
+        tn = md.Trajectory(xyz_, None, unitcell_lengths=[L, L], unitcell_angles=[near, [70, 80, 95]])
+        prs = np.array([(i, j) for i in range(20) for j in range(i + 1, 20)])
+        quad = np.array([[0, 1, 2, 3], [4, 5, 6, 7], [8, 9, 10, 11], [12, 13, 14, 15]])
+        ctx.case(None, ("near-rectangular", k)); ctx.count("nearly rectangular frames next to a skewed one")
+        for nm, fn, tol_ in (("compute_distances", lambda tr: md.compute_distances(tr, prs), 5e-6), ("compute_displacements", lambda tr: md.compute_displacements(tr, prs), 5e-6),
+                             ("compute_angles", lambda tr: md.compute_angles(tr, quad[:, :3]), 5e-6), ("compute_dihedrals", lambda tr: md.compute_dihedrals(tr, quad), 2e-5)):
+            a_, b_ = fn(tn)[0], fn(tn[0])[0]
+            d_ = np.abs(a_ - b_)
+            if nm == "compute_dihedrals":
+                d_ = np.minimum(d_, 2 * np.pi - d_)
+            if d_.max() > tol_:
+                viol("near-rectangular|" + nm, "%s for a frame with cell angles %s: inside a trajectory whose other frame is skewed it differs from the frame alone by %.3g" % (
+                    nm, near.tolist(), d_.max()), dict(function=nm, angles=near.tolist(), lengths=L.tolist()))
+
     # ---- correspondence: multi-frame shrake_rupley vs per-frame model counts (c08_sasa_frames)
     lib, err = shim.build("sasa")
     if lib is None:
